@@ -14,9 +14,9 @@ by evaluating the top-level contract on complete domains for n <= 4 and on seede
 """
 from __future__ import annotations
 import time
-from .. import core, e2e
-from ..core import GROUND, BOUNDED
-from ..oracle import pauli as P, graphs as G
+from .. import core, e2e, adapt
+from ..core import GROUND, BOUNDED, PROVED, REFUTED
+from ..oracle import pauli as P, graphs as G, docs
 
 
 def route_of(ctx):
@@ -78,6 +78,41 @@ def sign_step(ctx):
     ctx.extra["sign_step_cases"] = len(jobs)
 
 
+def own_generator_jobs(ctx):
+    import random
+    import htstabilizer.stabilizer_circuits as sc
+    from htstabilizer.stabilizer import Stabilizer
+    rnd = random.Random(ctx.seed + 101)
+    jobs = []
+    for n, conn in docs.ADVERTISED:
+        if n < 4:
+            continue
+        reps = G.orbit_table(n)[1]
+        orbs = list(range(len(reps)))
+        rnd.shuffle(orbs)
+        orbs = orbs[:(12 if n < 6 else 3) if ctx.quick else (40 if n < 6 else 25)]
+        for o in orbs:
+            rows = G.apply_layer_unsigned(n, [(x, z) for x, z, _ in G.graph_state_gens(n, G.adj_from_id(n, reps[o]))], [rnd.randrange(6) for _ in range(n)])
+            R, Sm, _ = adapt.matrices_from_gens(n, [(x, z, 0) for x, z in rows])
+            try:
+                base = adapt.gates_of(sc._get_preparation_circuit_modulo_phase(Stabilizer((R, Sm)), conn))
+            except Exception:
+                continue                                     # reported by the other families
+            own = [(x, z) for x, z, _ in P.state_generators(n, base)]
+            els = [(x, z) for x, z, _ in P.group_elements(n, [(x, z, 0) for x, z in own])][1:]
+            jobs.append((n, conn, [(x, z, 0) for x, z in own], "matrix", None))
+            jobs.append((n, conn, [(x, z, rnd.randrange(2)) for x, z in own], "strings", None))
+            picks = [(i, h) for i in range(n) for h in els]          # EVERY (position, group element) replacement for the chosen members
+            for i, h in picks:
+                lst = list(own)
+                lst[i] = h
+                if G.canon_keys(n, lst) is None:
+                    continue                                 # no longer independent
+                for sv in ([0] * n, [rnd.randrange(2) for _ in range(n)]):
+                    jobs.append((n, conn, [(x, z, b) for (x, z), b in zip(lst, sv)], ("matrix", "strings")[len(jobs) % 2], None))
+    return jobs
+
+
 def run(ctx: core.Ctx):
     import htstabilizer.stabilizer_circuits as sc
     import htstabilizer.rotate_stabilizer_into_state as rot
@@ -92,9 +127,22 @@ def run(ctx: core.Ctx):
     t = time.time()
     results = core.pmap(e2e.eval_state, jobs)
     e2e.book(ctx, results, ("C01.",), route_of(ctx))
+    # generating sets CLOSE TO THE LIBRARY'S OWN: the generators C Z_i C^dagger of the circuit it delivers for a class member, with one of them replaced by another
+    # element of the group (every position x every group element, for seeded members of seeded classes) - the inputs on which "the request already matches what I produce" shortcuts live
+    nj = own_generator_jobs(ctx)
+    res2 = core.pmap(e2e.eval_state, nj)
+    for r in res2:
+        for fam_name, ok, key, what, rp in r:
+            if not fam_name.startswith("C01."):
+                continue
+            fam = ctx.family(fam_name + ".near_own_generators", core.BOUNDED, "native+oracle", "requested generators = the delivered circuit's own generators with one replaced by another group element")
+            fam.exhaustive = False
+            ctx.record(fam, PROVED if ok else REFUTED, {"n": rp["n"], "connectivity": rp["connectivity"], "paulis": rp["paulis"]} if fam.total < 2 else None)
+            if not ok:
+                ctx.violate(fam, key, what, rp)
     ctx.extra["domains"] = desc
     ctx.extra["ground_time_s"] = round(time.time() - t, 2)
-    ctx.extra["cases"] = len(jobs)
+    ctx.extra["cases"] = len(jobs) + len(nj)
     ctx.trust("oracle signed tableau simulator (hv/oracle/pauli.py), group enumeration count-checked against prod(2^k+1)",
               "Q3: qiskit QuantumCircuit gate methods / compose / inverse keep the instruction semantics read back through the instruction list")
     ctx.assume("n<=3 (and n=4 in the thorough tier): exhaustive over all stabilizer groups and all sign vectors; generating sets exhaustive only for n=2",
